@@ -370,10 +370,12 @@ func getDec(n int) *dec {
 		z = new(dec)
 	}
 	*z = z.make(n)
+	verifGet(z)
 	return z
 }
 
 func putDec(x *dec) {
+	verifPut(x)
 	decPool.Put(x)
 }
 
